@@ -28,7 +28,7 @@ RULES = ["UniqueOpNames", "LoneAnonymous", "SingleSubscriptionRoot", "FieldsOnCo
          "FragmentsWellFormed", "FragmentsAcyclic", "FragmentSpreadPossible", "DirectivesKnown", "DirectivesLocated",
          "DirectivesUniquePerLocation", "DirectivesArgsProvided", "VariablesUnique", "VariablesInputTyped",
          "VariablesDefined", "VariablesUsed", "VariablesInAllowedPosition"]
-ADMISSION_PINNED = "c52fd91f636b59e6"
+ADMISSION_PINNED = "72d40051a309884d"
 
 
 def admission_section():
@@ -155,6 +155,8 @@ def load_fragment_findings(ctx, name):
     """findings.d/<name>.json is this check's part of known-findings.json; until the coordinator has merged it the entries
     are honoured from the fragment (in memory only - nothing is written)."""
     p = os.path.join(lib.VERIF, "findings.d", name)
+    if os.environ.get("VERIF_FINDINGS_AFTER_FIX") and os.path.exists(p + ".after-fix"):
+        p += ".after-fix"  # verification of prepared repairs (FIX_GUIDE.md step 5) before the coordinator swaps the files
     if os.path.exists(p):
         have = {(k.get("property"), k.get("key")) for k in ctx.known()}
         with open(p) as f:
